@@ -14,7 +14,8 @@ rsync -a --exclude .git /repo/ "$SCR/repo/"
 ( cd "$SCR/repo" && patch -p1 -s < "$PATCH" ) || { echo "SELFTEST $ID $(basename $PATCH): patch does not apply"; exit 3; }
 if [ "${SKIP_BASELINE:-0}" != 1 ]; then
   ( cd "$SCR/repo" && go build ./... && timeout 400 go test -vet=off -count=1 -timeout 180s ./... 2>&1 ) > "$SCR/test.log" 2>&1
-  if grep -E '^(--- FAIL|FAIL|panic:)' "$SCR/test.log" | grep -v -E 'TestRunInteractive|^FAIL$|FAIL\s+github.com/mattn/anko\s' | grep -q .; then
+  # two tests of the repository fail for reasons of their own (no terminal; port 8080 taken by a parallel run): ignored
+  if grep -E '^(--- FAIL|panic:|FAIL.*(build failed|setup failed)|.*test timed out)' "$SCR/test.log" | grep -v -E 'TestRunInteractive|Example_vmHttp' | grep -q .; then
     echo "SELFTEST $ID $(basename $PATCH): baseline tests FAIL with the patch (not a valid mutant)"; grep -E '^(--- FAIL|FAIL|panic:)' "$SCR/test.log" | head; exit 4
   fi
 fi
